@@ -10,7 +10,11 @@ import math
 import itertools
 from fractions import Fraction
 
+import sys
 import z3
+
+if hasattr(sys, "set_int_max_str_digits"):
+    sys.set_int_max_str_digits(0)
 
 
 class EngineSignal(BaseException):
@@ -463,6 +467,24 @@ def acc_is_int(v):
     return _is_intlike(v)
 
 
+def s_and(*cs):
+    cs = [zbool(c) for c in cs]
+    return SymBool(z3.And(*cs)) if cs else True
+
+
+def s_or(*cs):
+    cs = [zbool(c) for c in cs]
+    return SymBool(z3.Or(*cs)) if cs else False
+
+
+def s_not(c):
+    return SymBool(z3.Not(zbool(c)))
+
+
+def s_implies(a, b):
+    return SymBool(z3.Implies(zbool(a), zbool(b)))
+
+
 def trunc(x):
     """C cast double -> integer (toward zero)."""
     if isinstance(x, Sym):
@@ -525,15 +547,18 @@ class Context:
         self.uf_seen = []
         self.lemma_hooks = []
         self.axioms = []
+        self.vars = []
 
     # ---- variables
     def real(self, name, lo=None, hi=None, lo_strict=False, hi_strict=False):
         v = Sym(z3.Real(name))
+        self.vars.append(v)
         self._bound(v, lo, hi, lo_strict, hi_strict)
         return v
 
     def int(self, name, lo=None, hi=None):
         v = Sym(z3.Int(name))
+        self.vars.append(v)
         self._bound(v, lo, hi, False, False)
         return v
 
@@ -641,21 +666,70 @@ class Context:
         """Obligation: under the current path condition `cond` holds."""
         z = zbool(cond)
         self.reach(label)
-        r = self._check(z3.Not(z))
+        r = self._decide(z3.Not(z))
         if r == z3.unsat:
             self.stats["proved"] += 1
             self.proved_labels[label] = self.proved_labels.get(label, 0) + 1
             return True
         if r == z3.sat:
-            m = self.solver.model()
+            m = self._last_model_solver.model()
+            m = self._small_model(z, m)
             self.stats["failed"] += 1
             self.failures.append(dict(label=label, model=m, info=info, replay=replay,
                                       draws=list(self.draws), trail=list(self.trail[:self.pos]),
                                       cond=z))
             return False
         self.stats["unknown"] += 1
-        self.unknowns.append(dict(label=label, reason=self.solver.reason_unknown()))
+        self.unknowns.append(dict(label=label, reason=self._last_model_solver.reason_unknown()))
         return None
+
+    def _decide(self, negated):
+        """Decide pc AND negated claim.  A *fresh* non-incremental solver is tried first (the
+        incremental one loses z3's preprocessing and can be orders of magnitude slower on
+        nonlinear real arithmetic), then the incremental solver, then other random seeds."""
+        t = time.time()
+        self.stats["queries"] += 1
+        res = z3.unknown
+        for attempt in range(4):
+            if attempt == 1:
+                res = self.solver.check(negated)
+                self._last_model_solver = self.solver
+            else:
+                fs = z3.Solver()
+                fs.set("timeout", self.timeout_ms if attempt == 0 else max(self.timeout_ms, 30000))
+                if attempt >= 2:
+                    fs.set("random_seed", 7 * attempt)
+                    fs.set("smt.random_seed", 11 * attempt)
+                for a in self.axioms:
+                    fs.add(a)
+                fs.add(*self.pc)
+                fs.add(negated)
+                res = fs.check()
+                self._last_model_solver = fs
+            if res != z3.unknown:
+                break
+        self.stats["solver_s"] += time.time() - t
+        return res
+
+    def _small_model(self, z, m):
+        """Prefer a counterexample with small magnitudes (replayable in doubles)."""
+        vs = [v.z for v in self.vars]
+        if not vs:
+            return m
+        for B in (8, 100, 10000):
+            self.solver.push()
+            try:
+                self.solver.add(z3.Not(z))
+                for v in vs:
+                    self.solver.add(v <= B, v >= -B)
+                self.solver.set("timeout", 3000)
+                r = self._check()
+                if r == z3.sat:
+                    return self.solver.model()
+            finally:
+                self.solver.set("timeout", self.timeout_ms)
+                self.solver.pop()
+        return m
 
     def fail(self, label, info=None, replay=None):
         """Obligation violated on every input of this (feasible) path."""
@@ -697,6 +771,7 @@ class Context:
             self.draws = []
             self.events = []
             self.uf_seen = []
+            self.vars = []
             self._fresh = itertools.count()
             self.solver.push()
             for a in self.axioms:
